@@ -11,10 +11,19 @@ use crate::apps::App;
 use crate::model::Analysis;
 use crate::oracle::{aux_stream, Aux, Tally, Verdict, Violation};
 
+/// The reply to the *first* request, comparable across deliveries: HTTP with the Date masked;
+/// ONC-RPC reduced to the first record of the payload (a segment that completes several
+/// pipelined calls may carry several replies, one record each).
 fn norm(app: App, r: &[u8]) -> Vec<u8> {
     if app == App::Http {
         http::mask_date(r)
     } else {
+        if r.len() >= 4 {
+            let l = (u32::from_be_bytes([r[0] & 0x7f, r[1], r[2], r[3]]) as usize).saturating_add(4);
+            if l <= r.len() {
+                return r[..l].to_vec();
+            }
+        }
         r.to_vec()
     }
 }
